@@ -286,10 +286,12 @@ func (m *machine) verify(t *rapid.T, why string, e expect) {
 		rmByN[k] = v
 	}
 	innerRm := 0
+	var removedObs []obs
 	for _, o := range m.seq { // deterministic order
 		if _, still := nm[o.ID]; still {
 			continue
 		}
+		removedObs = append(removedObs, o)
 		if o.Inner {
 			innerRm++
 		}
@@ -368,6 +370,7 @@ func (m *machine) verify(t *rapid.T, why string, e expect) {
 			}
 		}
 	}
+	m.checkNotifications(t, why, e, nm, added, removedObs, changed)
 	// labels that need old and new sequence
 	if innerRm > 0 && m.tr.repo != nil && !m.bulk {
 		for _, o := range m.seq {
@@ -461,6 +464,9 @@ func (m *machine) pre() {
 		m.tr.repo.resetCounters()
 		m.nilBefore = m.tr.repo.nilChildren()
 	}
+	if m.tr.trk != nil {
+		m.tr.trk.reset()
+	}
 }
 
 // account classifies what the last single API call did to the node map.
@@ -545,5 +551,95 @@ func bounds(seq []obs, n int) (lb, ub int) {
 func (m *machine) positioned() {
 	if len(m.model) > 0 {
 		m.staleRisk = false
+	}
+}
+
+// checkNotifications compares what the call told the ItemActionTracker with what it did:
+// one Add per new item, one Remove per vanished item, one Update per successful update call
+// (for the item that changed, carrying its key and value as they are after the call) and
+// nothing else. Get notifications are checked where values are read (tree.current).
+func (m *machine) checkNotifications(t *rapid.T, why string, e expect, nm map[sop.UUID]mitem, added, removed, changed []obs) {
+	trk := m.tr.trk
+	if trk == nil {
+		return
+	}
+	defer trk.reset()
+	fail := func(f string, a ...any) {
+		t.Fatalf("after %s: ItemActionTracker notifications %s: %s", why, renderEvents(trk.ev), fmt.Sprintf(f, a...))
+	}
+	wantA := map[sop.UUID]obs{}
+	for _, o := range added {
+		wantA[o.ID] = o
+	}
+	wantR := map[sop.UUID]obs{}
+	for _, o := range removed {
+		wantR[o.ID] = o
+	}
+	updates := 0
+	for _, ev := range trk.ev {
+		switch ev.kind {
+		case 'A':
+			o, ok := wantA[ev.id]
+			if !ok {
+				fail("Add reported for key=%d id=%v, which is not an item this call added (or reported twice)", ev.n, ev.id)
+			}
+			if ev.n != o.N || (ev.hasVal && ev.val != o.Val) {
+				fail("Add reported key=%d value=%d for the item stored as key=%d value=%d", ev.n, ev.val, o.N, o.Val)
+			}
+			delete(wantA, ev.id)
+		case 'R':
+			o, ok := wantR[ev.id]
+			if !ok {
+				if still, in := nm[ev.id]; in {
+					fail("Remove reported for key=%d value=%d, an item that is still in the tree", still.n, still.val)
+				}
+				fail("Remove reported for key=%d id=%v, which is not an item this call removed (or reported twice)", ev.n, ev.id)
+			}
+			if ev.n != o.N {
+				fail("Remove reported key=%d for the removed item with key=%d", ev.n, o.N)
+			}
+			delete(wantR, ev.id)
+		case 'U':
+			updates++
+			now, ok := nm[ev.id]
+			if !ok {
+				fail("Update reported for key=%d id=%v, which is not an item of the tree", ev.n, ev.id)
+			}
+			if e.chg == nil {
+				fail("Update reported for key=%d although the call changed nothing", ev.n)
+			}
+			if len(changed) == 1 && changed[0].ID != ev.id {
+				fail("Update reported for key=%d value=%d, but the item that changed is key=%d value=%d", now.n, now.val, changed[0].N, changed[0].Val)
+			}
+			if !e.chg.id.IsNil() && ev.id != e.chg.id {
+				fail("Update reported for key=%d value=%d, not for the item under the cursor", now.n, now.val)
+			}
+			if ev.n != e.chg.n || now.n != e.chg.n {
+				fail("Update reported for an item with key=%d, the call was for key %d", ev.n, e.chg.n)
+			}
+			if ev.tag != now.tag || (ev.hasVal && ev.val != now.val) {
+				fail("Update reported key tag=%d value=%d, the item now holds tag=%d value=%d", ev.tag, ev.val, now.tag, now.val)
+			}
+		case 'G':
+			// reading a value inside a mutator is not part of any mutator of the B-tree
+			fail("Get reported for key=%d by a call that reads no value", ev.n)
+		}
+	}
+	for _, o := range added {
+		if _, miss := wantA[o.ID]; miss {
+			fail("no Add reported for the new item key=%d value=%d", o.N, o.Val)
+		}
+	}
+	for _, o := range removed {
+		if _, miss := wantR[o.ID]; miss {
+			fail("no Remove reported for the removed item key=%d value=%d", o.N, o.Val)
+		}
+	}
+	wantU := 0
+	if e.chg != nil {
+		wantU = 1
+	}
+	if updates != wantU {
+		fail("%d Update notification(s), want %d", updates, wantU)
 	}
 }
